@@ -82,6 +82,11 @@ LongCases ==
    /\ P(CaseRec("long", "Unsqueeze", <<>>, <<X, I64(<<0, 2>>)>>, SemUnsqueeze(X, I64(<<0, 2>>)), <<"valid", "long">>))
    /\ P(CaseRec("long", "Shape", <<>>, <<X2>>, SemShape(X2), <<"valid", "long">>))
 
+\* very many axes (an output of rank 66 and more): still any set of valid axes, duplicates still refused - also beyond position 64
+ManyAxesCases ==
+   LET X == Iota("f32", <<3>>, 0) base == [i \in 1..65 |-> i - 1] IN
+   \A ax \in {base, base \o <<64>>, base \o <<-3>>, base \o <<-2>>, base \o <<65>>, base \o <<70>>, [i \in 1..65 |-> 65 - i]} :
+      LET a == SemUnsqueeze(X, I64(ax)) IN P(CaseRec("unsqueeze", "Unsqueeze", <<>>, <<X, I64(ax)>>, a, <<Outcome(a), "many_axes">>))
 \* tiling law (Outcome.tla): the leading axis is carried through; the harness repeats the operand beyond a million elements
 TileEmit(op, attrs, ins, a, Sem(_)) ==
    TileLaw(Sem, ins, {1}) => P(CaseRec("tile", op, attrs, ins, a, <<"valid", "tile_law">>) @@ [tile |-> TileField({1})])
@@ -113,7 +118,7 @@ Emit ==
                                   /\ \A axes \in AxesLists(Len(st.shape), AxesLen) : P(SqueezeCase(st.shape, axes, FALSE))
         [] st.fam = "unsqueeze" -> \A axes \in AxesLists(Len(st.shape) + 1, MinI(AxesLen, 5 - Len(st.shape))) :
                                       (Len(axes) > 1 => Range(axes) \subseteq AxisVals(Len(st.shape) + Len(axes))) => P(UnsqueezeCase(st.shape, axes))
-        [] st.fam = "shape"    -> P(ShapeCase(st.shape, "f32")) /\ (Len(st.shape) <= 2 => ExtremeAxisCases(st.shape)) /\ (st.shape = <<>> => LongCases /\ TileShapeCases /\ \A X \in SpecialValueXs : \A i \in 1..5 : P(DtypeCasesX(X.dt \o "_special", X)[i]))
+        [] st.fam = "shape"    -> P(ShapeCase(st.shape, "f32")) /\ (Len(st.shape) <= 2 => ExtremeAxisCases(st.shape)) /\ (st.shape = <<>> => LongCases /\ TileShapeCases /\ ManyAxesCases /\ \A X \in SpecialValueXs : \A i \in 1..5 : P(DtypeCasesX(X.dt \o "_special", X)[i]))
         [] st.fam = "dtypes"   -> \A i \in 1..5 : P(DtypeCases(st.dt, st.shape)[i])
    /\ st' = [st EXCEPT !.done = TRUE]
 Next == Emit
